@@ -15,8 +15,8 @@ theorem MA.congr (s s' : St) (sent : List (Cidr × RouteUpdate)) (ht : s'.trie =
 
 theorem MA.edit {P : St → St} {k : Cidr} {f : RouteInfo → RouteInfo} (hE : Edit P k f) (s : St)
     (sent : List (Cidr × RouteUpdate)) (h : MA s sent)
-    (hh : k.len = 32 ∨ ∀ v, (f v).hosts = v.hosts ∧ (f v).refs = v.refs)
-    (hl : f (s.view k) ≠ {} → k.len ≤ 32) (hb : ∀ v, (f v).block = v.block) : MA (P s) sent :=
+    (hh : k.len = k.width ∨ ∀ v, (f v).hosts = v.hosts ∧ (f v).refs = v.refs)
+    (hl : f (s.view k) ≠ {} → k.len ≤ k.width) (hb : ∀ v, (f v).block = v.block) : MA (P s) sent :=
   ⟨mid_of_step s (P s) sent (hE.step s) (hE.nodes s) h.2 h.1, Aux.edit hE s h.2 hh hl hb⟩
 
 theorem foldl_inv {α} {P : St → Prop} (body : St → α → St) (xs : List α)
@@ -31,7 +31,7 @@ theorem foldl_inv {α} {P : St → Prop} (body : St → α → St) (xs : List α
 theorem empty_with_pool_none (v : RouteInfo) (h : ({ v with pool := none } : RouteInfo) ≠ {}) : v ≠ {} := by
   intro e; subst e; exact h rfl
 
-theorem pool_step (s : St) (sent : List (Cidr × RouteUpdate)) (c : Cidr) (p : Option Pool) (hl : c.len ≤ 32)
+theorem pool_step (s : St) (sent : List (Cidr × RouteUpdate)) (c : Cidr) (p : Option Pool) (hl : c.len ≤ c.width)
     (h : MA s sent) : MA (s.onPoolUpdate c p) sent := by
   unfold St.onPoolUpdate
   cases p with
@@ -59,7 +59,7 @@ theorem ma_delBody (s : St) (sent : List (Cidr × RouteUpdate)) (r : Nat × Cidr
   intro c n ht hc h0
   exact hm1 c n ht hc h0
 
-theorem ma_addBody (s : St) (sent : List (Cidr × RouteUpdate)) (r : Nat × Cidr) (hl : r.2.len ≤ 32) (h : MA s sent) :
+theorem ma_addBody (s : St) (sent : List (Cidr × RouteUpdate)) (r : Nat × Cidr) (hl : r.2.len ≤ r.2.width) (h : MA s sent) :
     MA ({ s.updateBlockRoute r.2 r.1 with nodeRoutes := nrAdd (s.updateBlockRoute r.2 r.1).nodeRoutes r }) sent := by
   have hE := Edit.updateBlockRoute r.2 r.1
   refine ⟨?_, Aux.addBody s r h.2 hl⟩
@@ -84,15 +84,15 @@ theorem mem_aset' {κ α} [BEq κ] (m : List (κ × α)) (k : κ) (v : α) (e : 
         · exact Or.inl h
         · exact Or.inr (List.mem_cons_of_mem _ h)
 
-theorem routesFromBlock_len (c : Cidr) (aff : Option Nat) (allocs : List (Nat × Option Nat)) (hl : c.len ≤ 32) :
-    ∀ r ∈ routesFromBlock c aff allocs, r.1.len ≤ 32 := by
+theorem routesFromBlock_len (c : Cidr) (aff : Option Nat) (allocs : List (Nat × Option Nat)) (hl : c.len ≤ c.width) :
+    ∀ r ∈ routesFromBlock c aff allocs, r.1.len ≤ r.1.width := by
   unfold routesFromBlock
   simp only []
-  have hfold : ∀ (m : List (Cidr × Nat)), (∀ r ∈ m, r.1.len ≤ 32) →
+  have hfold : ∀ (m : List (Cidr × Nat)), (∀ r ∈ m, r.1.len ≤ r.1.width) →
       ∀ r ∈ allocs.foldl (fun (m : List (Cidr × Nat)) a =>
         match a.2 with
         | none => m
-        | some h => if aff == some h then m else aset m (Cidr.host (c.addr + a.1)) h) m, r.1.len ≤ 32 := by
+        | some h => if aff == some h then m else aset m (Cidr.hostOf c.v6 (c.addr + a.1)) h) m, r.1.len ≤ r.1.width := by
     induction allocs with
     | nil => intro m hm; exact hm
     | cons a as ih =>
@@ -107,7 +107,7 @@ theorem routesFromBlock_len (c : Cidr) (aff : Option Nat) (allocs : List (Nat ×
         · exact hm
         · intro r hr
           rcases mem_aset' _ _ _ _ hr with e | e
-          · rw [e]; exact Nat.le_refl 32
+          · rw [e]; cases c.v6 <;> exact Nat.le_refl _
           · exact hm r e
   have h0 := hfold [] (by intro r hr; simp at hr)
   cases aff with
@@ -119,7 +119,7 @@ theorem routesFromBlock_len (c : Cidr) (aff : Option Nat) (allocs : List (Nat ×
     · exact h0 r e
 
 theorem block_step (s : St) (sent : List (Cidr × RouteUpdate)) (c : Cidr) (aff : Option Nat)
-    (allocs : List (Nat × Option Nat)) (hl : c.len ≤ 32) (h : MA s sent) :
+    (allocs : List (Nat × Option Nat)) (hl : c.len ≤ c.width) (h : MA s sent) :
     MA (s.onBlockUpdate c aff allocs) sent := by
   unfold St.onBlockUpdate
   simp only []
@@ -193,7 +193,7 @@ theorem node_step (s : St) (sent : List (Cidr × RouteUpdate)) (n0 : Nat) (new :
   have ht' : Tracked s c n := by unfold Tracked at ht ⊢; rw [← hv]; exact ht
   have hne : s4.view c ≠ {} := view_block_ne_empty _ n ht.1
   have hne' : s.view c ≠ {} := by rw [← hv]; exact hne
-  have hl : c.len ≤ 32 := ha.l32 c hne'
+  have hl : c.len ≤ c.width := ha.l32 c hne'
   have hpath : fullPath s4.view c = fullPath s.view c := fullPath_congr _ _ c hv (Q.step.anc c hc hne hl)
   have hdst := dstNode_tracked s ha c n ht'
   -- the route's node is not the node that changed
@@ -223,28 +223,28 @@ theorem node_step (s : St) (sent : List (Cidr × RouteUpdate)) (n0 : Nat) (new :
       · simp only [hme, if_true]
         have holdme : aget s.nodes s.me = old := by rw [← hme]; exact hold
         rw [holdme]
-        by_cases hcid : cidrOf old = cidrOf new
-        · exact (inSub_cidr_eq old new oi hcid).symm
-        · -- the visit ran; had the status flipped, `c` would be dirty
+        by_cases hcid : cidrOf c.v6 old = cidrOf c.v6 new
+        · exact (inSub_cidr_eq c.v6 old new oi hcid).symm
+        · -- the visit of c's family ran; had the status flipped, `c` would be dirty
           obtain ⟨ri, hri⟩ := view_ne_empty s c hne'
           have hget : s.get c = ri := by simp [St.get, hri]
           have hmem := aget_some_mem _ c ri hri
           have hrefs : ri.refs = [] := by have := ht'.2.2; simpa [St.view, hget, strip] using this
           have hblock : ri.block = some n' := by have := ht'.1; simpa [St.view, hget, strip] using this
-          have hcond : (n0 == s.me && cidrOf old != cidrOf new) = true := by simp [hme, hcid]
+          have hcond : (n0 == s.me && cidrOf c.v6 old != cidrOf c.v6 new) = true := by simp [hme, hcid]
           have hhosts : ri.hosts = [] := by have := ht'.2.1; simpa [St.view, hget, strip] using this
-          have hflip : subnetFlip s old new ri = (inSub old oi != inSub new oi) := by
+          have hflip : subnetFlip c.v6 s old new ri = (inSub c.v6 old oi != inSub c.v6 new oi) := by
             unfold subnetFlip visitNode
             simp only [hrefs, hhosts, hblock]
             have : (n' == s.me) = false := by
               simp only [beq_eq_false_iff_ne, ne_eq]; intro e; exact hnn (hme.trans e.symm)
             simp only [this, Bool.false_eq_true, if_false, hoi]
-          by_cases hf : subnetFlip s old new ri = true
-          · have hd1 : c ∈ s1.dirty := hvisit hcond c ri hmem hf
+          by_cases hf : subnetFlip c.v6 s old new ri = true
+          · have hd1 : c ∈ s1.dirty := hvisit c.v6 hcond c ri hmem rfl hf
             exact absurd (q4.step.mono c (q3.step.mono c (q2.step.mono c hd1))) hc
           · rw [hflip] at hf
-            have : inSub old oi = inSub new oi := by
-              cases h1 : inSub old oi <;> cases h2 : inSub new oi <;> simp [h1, h2] at hf ⊢
+            have : inSub c.v6 old oi = inSub c.v6 new oi := by
+              cases h1 : inSub c.v6 old oi <;> cases h2 : inSub c.v6 new oi <;> simp [h1, h2] at hf ⊢
             exact this.symm
       · simp [hme]
   rw [hroute]
